@@ -50,7 +50,7 @@ import (
 	rconfig "github.com/dadrus/heimdall/internal/rules/config"
 	"github.com/dadrus/heimdall/internal/rules/rule"
 	"github.com/dadrus/heimdall/internal/verif/vkit/core"
-	"github.com/dadrus/heimdall/internal/x/testsupport"
+	"github.com/dadrus/heimdall/internal/verif/vkit/ports"
 )
 
 // ------------------------------------------------------------------------------------------------
@@ -239,12 +239,12 @@ func vfSetup() (*vfEnv, error) {
 
 	e.dir = dir
 
-	port, err := testsupport.GetFreePort()
+	port, err := ports.Free()
 	if err != nil {
 		return nil, err
 	}
 
-	mport, err := testsupport.GetFreePort()
+	mport, err := ports.Free()
 	if err != nil {
 		return nil, err
 	}
